@@ -131,7 +131,7 @@ Section Classes.
     split.
     - intros [g [Hg [Hf1 Hf2]]]. pose proof (Permutation_in _ Hperm Hg) as Hg'.
       apply in_flat in Hg'. destruct Hg' as [e [s [He [Hs ->]]]]. cbn [snd] in *.
-      eapply same_sub_related; eassumption.
+      exact (same_sub_related _ _ Hinv Hnd Heq _ _ _ _ _ _ He Hs Hf1 Hf2 H1 H2).
     - intros R.
       assert (Hin : forall f m, In (f, m) (imgs l) -> exists e s, In e rs /\ In s (snd e) /\ In f (snd s)).
       { intros f m Hfm. pose proof (partition _ _ _ atol_nonneg _ _ _ _ H) as Hp.
